@@ -448,7 +448,7 @@ func c05Bookkeeping(r *Run, rng *Rng, rounds int) {
 		for i := 0; i < n; i++ {
 			switch x := rng.Intn(100); {
 			case x < 30:
-				c05BkOp(r, st, "bk.newsheet "+hx(rng.Pick(c05BkSheetNames)))
+				c05BkOp(r, st, "bk.newsheet "+hx(rng.Pick(c05BkSheetNames[1:]))) // Sheet1 is never re-created: its relationship path is fixed in this harness
 			case x < 50:
 				if c05BkOp(r, st, "bk.delsheet "+hx(rng.Pick(c05BkSheetNames))) == "PANIC" {
 					// the real file is left half-updated by the panic: start over
